@@ -89,6 +89,14 @@ def step(w, op, prop, strict_others=False):
         exp = m.unique_labels()
         if [str(x) for x in val] != exp:
             raise TViolation(prop + ".labels", "table #%d reports row labels %s, expected %s" % (tid, val, exp))
+        # the same labels as printed by show() (asked for all rows through the rows= argument: without it show() works on -
+        # and reorders - the table's own column list)
+        txt, e3 = call(lambda: t.show(rows=slice(None), output=str, maxwidth="full", header=False))
+        if e3 is not None:
+            raise TViolation(prop + ".show_raises", "table #%d show() raised %s: %s" % (tid, type(e3).__name__, e3))
+        shown = [ln.split()[0] if ln.split() else "" for ln in txt.split("\n")] if txt else []
+        if shown != exp:
+            raise TViolation(prop + ".labels_shown", "table #%d show() prints row labels %s, expected %s" % (tid, shown, exp))
         for i, lab in enumerate(val):
             v2, e2 = call(lambda: t.rows.get_index(lab))
             if e2 is not None or py(v2) != i:
@@ -196,6 +204,21 @@ def step(w, op, prop, strict_others=False):
         m.data[col] = [float(int(value)) if kd == "f" else int(value)] * m.n()
         _after_mutation(w, prop, tid, where)
         return "setcol_broadcast"
+    if kind == "show":
+        # printing is not a mutation: afterwards the table (column list and order included) is what it was
+        _, tid, with_rows = op
+        t, m = w.real[tid], w.model[tid]
+        if with_rows:
+            txt, exc = call(lambda: t.show(rows=slice(None), output=str, maxwidth="full"))
+        else:
+            txt, exc = call(lambda: t.show(output=str, maxwidth="full"))
+        where = "table #%d show(%s)" % (tid, "rows=slice(None)" if with_rows else "")
+        if exc is not None:
+            raise TViolation(prop + ".show_raises", "%s raised %s: %s" % (where, type(exc).__name__, exc))
+        for k in range(len(w.real)):
+            if k not in w.tainted:
+                w.check_equal(prop, k, where + " (table #%d afterwards)" % k)
+        return "show"
     if kind == "labelcol":
         # the table's own row labels stored as a column: t[col] = t.cols.get_index_unique() (the array the API handed out)
         _, tid, col = op
@@ -527,12 +550,14 @@ def _derive(w, op, prop):
                 texts.append(nm)
         if len(set(texts)) != len(texts) or any(" " in x for x in texts):
             return "skipped"
-        newm = sub.take_cols(texts, values)
+        allcols = len(names) == 0           # cols=None: every column (what show(rows=...) asks for)
+        newm = sub.take_cols(list(m.cols) if allcols else texts, values)
         rows_arg = np_sel(sels[0]) if len(sels) == 1 else tuple(np_sel(s) for s in sels)
         if len(sels) == 1 and isinstance(rows_arg, (list, tuple, np.ndarray)):
             rows_arg = (rows_arg,)          # an iterable first argument is read as a chain of selectors
-        where = "table #%d._select(%r, %r)" % (tid, rows_arg, " ".join(texts))
-        val, exc = call(lambda: t._select(rows_arg, " ".join(texts)))
+        cols_arg = None if allcols else " ".join(texts)
+        where = "table #%d._select(%r, %r)" % (tid, rows_arg, cols_arg)
+        val, exc = call(lambda: t._select(rows_arg, cols_arg))
         newkinds = dict(w.kinds[tid])
         for tx in values:
             dk = getattr(getattr(val, "_data", {}).get(tx, None), "dtype", None) if exc is None else None
@@ -625,7 +650,7 @@ def _derive(w, op, prop):
         w.check_equal(prop, k, where, order=order)
         _sources_untouched(w, prop, before, nb, where)
     finally:
-        keep = kind in ("d_rows", "d_cols", "d_add", "d_mul", "d_copy") and nb < MAX_LIVE
+        keep = kind in ("d_rows", "d_cols", "d_add", "d_mul", "d_copy", "d_select") and nb < MAX_LIVE
         if not keep:
             w.pop_last()
     return kind
